@@ -24,7 +24,9 @@ def gen_routines(seed, tier):
             ('ntt', 4, 4, 0, 2, 2, 1, 'same', 'null'), ('ntt', 4, 4, 0, 3, 3, 1, 'other', 'caller'), ('ntt', 4, 3, 0, 5, 2, 3, 'null', 'null'),
             ('ntt', 3, 3, 0, 1, 4, 1, 'same', 'caller'), ('intt', 4, 4, 0, 2, 4, 1, 'same', 'null'), ('intt', 4, 4, 0, 3, 3, 2, 'other', 'null'),
             ('intt', 5, 5, 0, 1, 2, 1, 'null', 'null'), ('ext', 3, 3, 1, 2, 2, 1, 'same', 'null'), ('ext', 3, 2, 2, 3, 3, 1, 'other', 'caller'),
-            ('ext', 4, 3, 1, 4, 4, 2, 'same', 'null'), ('ntt', 2, 0, 0, 7, 3, 1, 'other', 'null'), ('ntt', 5, 5, 0, 2, 2, 1, 'same', 'null')]:
+            ('ext', 4, 3, 1, 4, 4, 2, 'same', 'null'), ('ntt', 2, 0, 0, 7, 3, 1, 'other', 'null'), ('ntt', 5, 5, 0, 2, 2, 1, 'same', 'null'),
+            # sizes beyond any plausible serial cut-off of the parallel loops
+            ('ntt', 8, 8, 0, 2, 2, 1, 'same', 'null'), ('intt', 9, 9, 0, 1, 4, 1, 'same', 'null'), ('ext', 8, 8, 1, 1, 2, 1, 'same', 'null'), ('ntt', 9, 8, 0, 3, 3, 2, 'other', 'caller')]:
         for nth in (3, 4):
             rs.append('ntt %s %d %d %d %d %d %d %s %s %d' % (call, S, d, e, nc, nph, nb, dst, buf, nth))
     builders = [0, 1, 2, 3] + ([4, 5] if vlib.have_avx512() else [])
@@ -72,7 +74,7 @@ def run(tier, seed, replay=None):
                 o = orders[(i * 7 + j * 13 + k) % len(orders)]
                 k += 1
                 cases.append('%s | %d %s' % (rt, o['cap'], ' '.join(str(x) for x in o['order'])))
-    nttlib.make_inputs(wd, seed, 5)
+    nttlib.make_inputs(wd, seed, 9)
     nrej = 0
     variants = ['avx2'] + (['avx512'] if vlib.have_avx512() else [])
     for variant in variants:
